@@ -33,7 +33,9 @@ type c12Case struct {
 }
 
 var c12Known = []string{"utf-8", "UTF-8", "ISO-8859-1", "iso-8859-1", "windows-1252", "Windows-1251", "Shift_JIS", "EUC-KR", "gb2312", "GBK",
-	"KOI8-R", "utf-16", "UTF-16LE", "utf-16be", "us-ascii", "iso-8859-15", "Big5", "x-mac-cyrillic", "IBM866", "latin1", "macintosh"}
+	"KOI8-R", "utf-16", "UTF-16LE", "utf-16be", "us-ascii", "iso-8859-15", "Big5", "x-mac-cyrillic", "IBM866", "latin1", "macintosh",
+	// labels that contain the words the scanner itself looks for
+	"x-mac-charset-ce", "charsetx", "mycharset", "x-charset", "encoding-x", "x-meta", "content-1", "http-equiv"}
 
 const c12TokenChars = "abcdefghijklmnopqrstuvwxyzABCDEFGHIJKLMNOPQRSTUVWXYZ0123456789!#$%*+-.^_|~{}"
 
@@ -94,6 +96,8 @@ var c12HTMLPrologue = []string{
 	"<meta name=\"description\" content=\"A short guide to charset detection\">", "<meta name=\"keywords\" content=\"charset\">", "<meta content=\"charset charset =\">", "<meta name=\"x\" content=\"the charset; charset\">",
 	"<meta http-equiv=\"Content-Type\" content=\"text/html\"><meta name=\"description\" content=\"mentions charset=decoy-after-pragma\">",
 	"<script src=\"a.js\"/>var s = \"<meta charset='fake-in-selfclosed-script'>\";</script>", "<title/>Title <meta charset=fake-in-selfclosed-title></title>", "<style/>/* <meta charset=fake-in-selfclosed-style> */</style>", "<textarea/><meta charset=fake-in-textarea></textarea>",
+	// CDATA sections are not an HTML construct: "<![CDATA[" opens a bogus comment that ends at the first ">"
+	"<![CDATA[ x ]]>", "<![CDATA[>", "<![CDATA[ a > b", "<![cdata[x]]>", "<!x>", "<?pi ?>", "<!>",
 	// structure tags before the declaration: a meta is honoured wherever the scan meets it
 	"</head>", "<head></head>", "</HEAD >", "<body>", "</head><body><p>text</p>", "<head><title>t</title></head><body class=\"x\">", "</html>", "</title>", "<p>para</p><div><span>deep</span></div>", "<noscript></noscript>", "<template></template>",
 	"<meta http-equiv=\"Content-Language\" content=\"en\">", "<meta http-equiv=\"X-UA-Compatible\" content=\"IE=edge\">", "<meta name=\"viewport\" content=\"width=device-width\"><meta name=\"generator\" content=\"x\">", "<meta name=\"charset\" content=\"decoy-name\">", "<meta property=\"og:title\" content=\"t\">", "\n", "  ", "<base href=\"/\">",
